@@ -84,6 +84,11 @@ type Builder struct {
 	V1 []types.Transaction
 	V2 []types.V2Transaction
 
+	// contracts revised earlier in the block under construction: latest terms and the parent element used
+	revisedV2 map[types.FileContractID]types.V2FileContract
+	parentV2  map[types.FileContractID]types.V2FileContractElement
+	revisedV1 map[types.FileContractID]types.FileContract
+
 	// current foundation addresses inside the block
 	fSubsidy, fMgmt types.Address
 	// ephemeral policy
@@ -96,6 +101,7 @@ func NewBuilder(t *rapid.T, c *Chain, w *World) *Builder {
 	return &Builder{C: c, W: w, T: t, CS: cs, Child: cs.Index.Height + 1, Median: MedianTimestamp(cs),
 		usedSC: map[types.SiacoinOutputID]bool{}, usedSF: map[types.SiafundOutputID]bool{}, usedFC: map[types.FileContractID]bool{},
 		pool: ref.Big(cs.SiafundTaxRevenue), fees: new(big.Int),
+		revisedV2: map[types.FileContractID]types.V2FileContract{}, parentV2: map[types.FileContractID]types.V2FileContractElement{}, revisedV1: map[types.FileContractID]types.FileContract{},
 		fSubsidy: cs.FoundationSubsidyAddress, fMgmt: cs.FoundationManagementAddress, AllowEphemeral: true}
 }
 
@@ -527,6 +533,7 @@ func (b *Builder) V1Revise() bool {
 	c.Revised, c.FinalRev = true, rev.RevisionNumber
 	b.label("v1-revise")
 	b.finishV1(txn)
+	b.revisedV1[e.ID] = rev
 	return true
 }
 
@@ -873,6 +880,7 @@ func (b *Builder) V2Revise() bool {
 	c.Revised, c.FinalRev = true, rev.RevisionNumber
 	b.label("v2-revise")
 	b.finishV2(txn, SignOpts{})
+	b.revisedV2[e.ID], b.parentV2[e.ID] = rev, e.Copy()
 	return true
 }
 
@@ -1292,3 +1300,154 @@ func (b *Builder) V1FormThenProve() bool {
 	b.finishV1(ptxn)
 	return true
 }
+
+// V1ReviseAgainInBlock revises once more a v1 contract that an earlier transaction of this block revised.
+func (b *Builder) V1ReviseAgainInBlock() bool {
+	if !b.v1Allowed() {
+		return false
+	}
+	ids := make([]types.FileContractID, 0, len(b.revisedV1))
+	for id := range b.revisedV1 {
+		ids = append(ids, id)
+	}
+	sort.Slice(ids, func(i, j int) bool { return bytes.Compare(ids[i][:], ids[j][:]) < 0 })
+	for _, id := range ids {
+		cur := b.revisedV1[id]
+		l, ok := b.W.Locks[cur.UnlockHash]
+		if !ok || !l.Spendable(false, b.Child, b.Median) || cur.WindowStart < b.Child || cur.RevisionNumber >= types.MaxRevisionNumber-2 || b.Exp.contract(id, false).Resolved != "" {
+			continue
+		}
+		rev := cur
+		rev.RevisionNumber++
+		rev.ValidProofOutputs = append([]types.SiacoinOutput(nil), cur.ValidProofOutputs...)
+		rev.MissedProofOutputs = append([]types.SiacoinOutput(nil), cur.MissedProofOutputs...)
+		if len(rev.ValidProofOutputs) >= 2 && rev.ValidProofOutputs[0].Value.Cmp(types.NewCurrency64(1)) > 0 {
+			rev.ValidProofOutputs[0].Value = rev.ValidProofOutputs[0].Value.Sub(types.NewCurrency64(1))
+			rev.ValidProofOutputs[1].Value = rev.ValidProofOutputs[1].Value.Add(types.NewCurrency64(1))
+		}
+		var txn types.Transaction
+		txn.FileContractRevisions = []types.FileContractRevision{{ParentID: id, UnlockConditions: *l.UC, FileContract: rev}}
+		c := b.Exp.contract(id, false)
+		c.Revised, c.FinalRev = true, rev.RevisionNumber
+		b.label("v1-revise-twice-same-block")
+		b.finishV1(txn)
+		b.revisedV1[id] = rev
+		return true
+	}
+	return false
+}
+
+// V2ReviseAgainInBlock revises once more a v2 contract that an earlier transaction of this block revised;
+// the new revision is signed by the keys of the contract as it stands after that earlier revision.
+func (b *Builder) V2ReviseAgainInBlock() bool {
+	if !b.v2Allowed() {
+		return false
+	}
+	ids := make([]types.FileContractID, 0, len(b.revisedV2))
+	for id := range b.revisedV2 {
+		ids = append(ids, id)
+	}
+	sort.Slice(ids, func(i, j int) bool { return bytes.Compare(ids[i][:], ids[j][:]) < 0 })
+	for _, id := range ids {
+		cur := b.revisedV2[id]
+		if b.Exp.contract(id, true).Resolved != "" || cur.RevisionNumber >= types.MaxRevisionNumber-2 || b.parentV2[id].V2FileContract.ProofHeight < b.Child || cur.ProofHeight < b.Child {
+			continue
+		}
+		rev := cur
+		rev.RevisionNumber++
+		if rapid.Bool().Draw(b.T, "rotateAgain") {
+			rev.HostPublicKey = Pub(rapid.IntRange(0, NumKeys-1).Draw(b.T, "rotHk"))
+		}
+		var txn types.V2Transaction
+		txn.FileContractRevisions = []types.V2FileContractRevision{{Parent: b.parentV2[id].Copy(), Revision: rev}}
+		c := b.Exp.contract(id, true)
+		c.Revised, c.FinalRev = true, rev.RevisionNumber
+		if cur.RenterPublicKey != b.parentV2[id].V2FileContract.RenterPublicKey || cur.HostPublicKey != b.parentV2[id].V2FileContract.HostPublicKey {
+			b.label("v2-revise-twice-same-block-after-key-rotation")
+		}
+		b.label("v2-revise-twice-same-block")
+		b.finishV2(txn, SignOpts{CurrentContract: map[types.FileContractID]types.V2FileContract{id: cur}})
+		b.revisedV2[id] = rev
+		return true
+	}
+	return false
+}
+
+// V2RenewRevisedInBlock renews a v2 contract that an earlier transaction of this block revised. The renewal
+// is signed by, and keeps, the keys of the contract as it stands after that revision.
+func (b *Builder) V2RenewRevisedInBlock() bool {
+	if !b.v2Allowed() {
+		return false
+	}
+	ids := make([]types.FileContractID, 0, len(b.revisedV2))
+	for id := range b.revisedV2 {
+		ids = append(ids, id)
+	}
+	sort.Slice(ids, func(i, j int) bool { return bytes.Compare(ids[i][:], ids[j][:]) < 0 })
+	for _, id := range ids {
+		if b.Exp.contract(id, true).Resolved != "" {
+			continue
+		}
+		curFC := b.revisedV2[id]
+		parent := b.parentV2[id]
+		nc := b.drawV2Contract("renewRev")
+		nc.RenterPublicKey, nc.HostPublicKey = curFC.RenterPublicKey, curFC.HostPublicKey
+		tax := ref.TaxV2(nc.RenterOutput.Value, nc.HostOutput.Value)
+		newCost := new(big.Int).Add(ref.Big(nc.RenterOutput.Value), ref.Big(nc.HostOutput.Value))
+		newCost.Add(newCost, tax)
+		fee := b.drawFeeV2("renewRev")
+		need := new(big.Int).Add(newCost, fee)
+		picked, inTotal, ok := b.pickInputs("renewRev", true, need, 2)
+		if !ok {
+			return false
+		}
+		// no rollover: the old contract's (revised) value is paid out in full
+		ren := &types.V2FileContractRenewal{
+			FinalRenterOutput: types.SiacoinOutput{Value: curFC.RenterOutput.Value, Address: curFC.RenterOutput.Address},
+			FinalHostOutput:   types.SiacoinOutput{Value: curFC.HostOutput.Value, Address: curFC.HostOutput.Address},
+			NewContract:       nc,
+		}
+		var txn types.V2Transaction
+		txn.SiacoinInputs = b.v2Inputs(picked)
+		txn.FileContractResolutions = []types.V2FileContractResolution{{Parent: parent.Copy(), Resolution: ren}}
+		txn.MinerFee = cur64(fee)
+		txn.SiacoinOutputs = b.outputsFor("renewRevChange", new(big.Int).Sub(inTotal, need), false)
+		b.expectSC(id.V2RenterOutputID(), ren.FinalRenterOutput, b.maturity(), "v2 renewal final renter output")
+		b.expectSC(id.V2HostOutputID(), ren.FinalHostOutput, b.maturity(), "v2 renewal final host output")
+		nid := id.V2RenewalID()
+		ncx := b.Exp.contract(nid, true)
+		ncx.Formed, ncx.FinalRev = true, nc.RevisionNumber
+		b.usedFC[nid] = true
+		b.pool.Add(b.pool, tax)
+		b.Exp.TaxAdded = cur(new(big.Int).Add(ref.Big(b.Exp.TaxAdded), tax))
+		b.Exp.contract(id, true).Resolved = "renew"
+		b.label("v2-revise+renew-same-block")
+		if curFC.RenterPublicKey != parent.V2FileContract.RenterPublicKey || curFC.HostPublicKey != parent.V2FileContract.HostPublicKey {
+			b.label("v2-revise+renew-same-block-after-key-rotation")
+		}
+		// sign: new contract by its own keys, renewal by the CURRENT keys of the old contract
+		SignV2(b.CS, &txn, SignOpts{})
+		r := *txn.FileContractResolutions[0].Resolution.(*types.V2FileContractRenewal)
+		h := b.CS.RenewalSigHash(r)
+		if priv, ok := PrivFor(curFC.RenterPublicKey); ok {
+			r.RenterSignature = priv.SignHash(h)
+		}
+		if priv, ok := PrivFor(curFC.HostPublicKey); ok {
+			r.HostSignature = priv.SignHash(h)
+		}
+		txn.FileContractResolutions[0].Resolution = &r
+		txid := txn.ID()
+		idx := b.txnIndex()
+		for i, o := range txn.SiacoinOutputs {
+			b.expectSC(txn.SiacoinOutputID(txid, i), o, 0, "v2 txn output")
+			e := txn.EphemeralSiacoinOutput(i)
+			b.eph = append(b.eph, ephOut{sc: &e, v2: true, created: idx})
+		}
+		b.fees.Add(b.fees, ref.Big(txn.MinerFee))
+		b.V2 = append(b.V2, txn)
+		return true
+	}
+	return false
+}
+
+func cur64(b *big.Int) types.Currency { return cur(b) }
